@@ -43,6 +43,8 @@ Definition op_actions (o : op) (m : list (pstr * pstr)) : list action :=
       [AAdd (split_names sect) (table_section desc false sect (metrics_table (dupdate m kvs)))]
   | OAddHyperparams sect desc params =>
       [AAdd (split_names sect) (table_section desc true sect (hyperparam_table params))]
+  | OAddModelPlot sect desc html =>
+      [AAdd (split_names sect) (model_plot_section sect desc html)]
   | OSelect _ | OSelectChain _ => []
   | ODelete key =>
       if is_empty key || is_empty (last (split_names key) []) then [] else [ADel (split_names key)]
